@@ -185,8 +185,28 @@ def special_name_graphs():
     return out
 
 
+def cycle_entry_graphs():
+    """an include cycle of two or three files that does not contain the main file, entered from the main file at every member, in
+    every order, with and without an absent file inside the cycle: whether an include is recursive depends on the files open at
+    that moment, not on the file alone"""
+    import itertools
+    out = []
+    for k in (2, 3):
+        names = [b'c0', b'c1', b'c2'][:k]
+        for missing in (False, True):
+            files = {}
+            for i, nm in enumerate(names):
+                files[nm] = b'v%d := %d ;\n' % (i, i) + (b'include "gone"\n' if missing and i == 0 else b'') + b'include "' + names[(i + 1) % k] + b'"\nw%d := %d ;\n' % (i, i)
+            for r_ in range(1, k + 1):
+                for order in itertools.permutations(names, r_):
+                    f = dict(files)
+                    f[b'm'] = b''.join(b'include "' + nm + b'"\n' for nm in order) + b'z := 1\n'
+                    out.append((b'm', f))
+    return out
+
+
 def include_graphs(ctx, n):
-    cases = special_name_graphs()
+    cases = special_name_graphs() + cycle_entry_graphs()
     r = ctx.rnd
     for _ in range(n):
         # file names: mostly plain; sometimes boundary spellings (the empty name, a blank, a case twin, a path, a name with
